@@ -850,6 +850,8 @@ class DcelEmit:
             if name == 'dcel':
                 raise TransError("`dcel` used as a value")
             if name in env:
+                if isinstance(env[name][1], tuple) and env[name][1][0] == 'hmut':      # reading through `let x = dcel.half_edge_mut(h)`
+                    return "(half_edge dcel %s)" % env[name][1][1], 'hrec'
                 return env[name]
             if name in D_PATHS:
                 return D_PATHS[name]
@@ -980,6 +982,16 @@ class DcelEmit:
             h = self.typed(d_hem(lhs[1]), env, 'eh', "half_edge_mut")
             d_unify(rty, H_FIELDS[lhs[2]][1], "assignment to .%s" % lhs[2])
             return "%s dcel %s %s" % (H_FIELDS[lhs[2]][2], h, r)
+        def alias(x):
+            if x[0] == 'path' and len(x[1]) == 1 and x[1][0] in env and isinstance(env[x[1][0]][1], tuple) and env[x[1][0]][1][0] == 'hmut':
+                return env[x[1][0]][1][1]
+            return None
+        if lhs[0] == 'deref' and alias(lhs[1]) is not None:                 # *x = entry;   (x = dcel.half_edge_mut(h))
+            d_unify(rty, 'hrec', "assignment to *half_edge_mut")
+            return "set_half_edge dcel %s %s" % (alias(lhs[1]), r)
+        if lhs[0] == 'field' and alias(lhs[1]) is not None and lhs[2] in H_FIELDS:   # x.f = v;
+            d_unify(rty, H_FIELDS[lhs[2]][1], "assignment to .%s" % lhs[2])
+            return "%s dcel %s %s" % (H_FIELDS[lhs[2]][2], alias(lhs[1]), r)
         if lhs[0] == 'field' and lhs[1][0] == 'index' and d_vec_of(lhs[1][1]) is not None:
             vec, f = d_vec_of(lhs[1][1]), lhs[2]
             i = self.typed(lhs[1][2], env, 'nat', "index")
@@ -1046,6 +1058,19 @@ class DcelEmit:
                     p = self.bindpat(pat, d_unify(aty, fty, "if branches"), env)
                     lines.append(pad + "let '(dcel, %s) :=\n%s  if %s then (\n%s)\n%s  else (\n%s) in"
                                  % (p, pad, c, a, pad, f))
+                elif d_hem(e) is not None and pat[0] == 'var':
+                    # let x = dcel.half_edge_mut(h);  -- an exclusive borrow of one entry: `x.f = v` is `dcel.half_edge_mut(h).f = v`.
+                    # While x is alive Rust allows no other access to dcel, so substituting the handle is exact.
+                    no_pure("a mutable borrow")
+                    h = self.typed(d_hem(e), env, 'eh', "half_edge_mut")
+                    if not re.match(r"^[a-z_][a-z0-9_]*$", pat[1]) or pat[1] == 'dcel':
+                        raise TransError("cannot bind the name `%s`" % pat[1])
+                    hv = pat[1] + "_h"                       # the handle is evaluated once, at the borrow
+                    for other, (c, _) in env.items():
+                        if c == hv:
+                            raise TransError("variable names %s / %s collide after renaming" % (hv, other))
+                    lines.append(pad + "let %s := %s in" % (hv, h))
+                    env[pat[1]] = (hv, ('hmut', hv))
                 else:
                     if d_mutates(e):
                         raise TransError("mutation inside the right-hand side of a `let` (%s)" % e[0])
